@@ -185,12 +185,18 @@ func (e *Engine) buildSMT(ob *Obligation) string {
 func smtName(n string) string { return n }
 
 func runSolver(ctx context.Context, s solverCfg, file string, timeout time.Duration) (status, out string, dur float64) {
-	cctx, cancel := context.WithTimeout(ctx, timeout)
+	wall := timeout
+	if s.name != "cvc5" {
+		wall = 4*timeout + 2*time.Second
+	}
+	cctx, cancel := context.WithTimeout(ctx, wall)
 	defer cancel()
 	argv := append([]string{}, s.argv...)
 	switch s.name {
 	case "z3-new", "z3":
-		argv = append(argv, fmt.Sprintf("-T:%d", int(timeout.Seconds())+1))
+		// deterministic resource limit (about 2.2M units per second on an idle core) instead of
+		// wall-clock time, so that machine load cannot turn a proof into a timeout
+		argv = append(argv, fmt.Sprintf("-T:%d", 4*int(timeout.Seconds())+1), fmt.Sprintf("rlimit=%d", int64(timeout.Seconds())*2200000))
 	case "cvc5":
 		argv = append(argv, fmt.Sprintf("--tlimit=%d", timeout.Milliseconds()))
 	}
@@ -278,7 +284,7 @@ func (e *Engine) solveOne(ob *Obligation, dir string, timeout time.Duration) {
 	launch(solvers[0])
 	pending := 1
 	launched := 1
-	grace := time.After(1500 * time.Millisecond)
+	grace := time.After(5 * time.Second)
 	best := res{st: "unknown"}
 	for pending > 0 {
 		select {
